@@ -176,6 +176,10 @@ def panicM (p : Site) : M α := stopM (.panic p)
 def check (fx : Fix) (p : Site) (bad : Bool) (k : ErrKind) : M Unit :=
   if bad then (if fx p then failM k else panicM p) else pure ()
 
+/-- `if bad { return Err(k) }` -/
+def guardM (bad : Bool) (k : ErrKind) : M Unit :=
+  if bad then failM k else pure ()
+
 def tick (n : Nat := 1) : M Unit := fun s => .val () { s with ticks := s.ticks + n }
 
 /-- `vec![0; n]`, `to_vec()`, `Vec::with_capacity(n)` -/
